@@ -419,15 +419,30 @@ def _run_view(H, v, ret=None):
     if k == "assg":
         return [_sg_obs(keep(cv._as_species_graph(H)))]
     if k == "backend":
-        from synkit.CRN.Hypergraph.backend import _CRNGraphBackend
         _, inc_rule, int_, st = v
-        b = _CRNGraphBackend(H, include_rule=inc_rule, integer_ids=int_, include_stoich=st)
+        b = _backend(H, inc_rule, int_, st)
         G = b.G
         if b.graph_type != ("bipartite" if inc_rule else "species") or b.G is not G:
             return ["backend: wrong graph_type or the cached view is rebuilt"]
-        keep(G)
+        if _HELD is None:
+            keep(G)           # a held backend's graph IS the cached view (documented): the caller leaves it alone
         return [_bip_obs(G)] if inc_rule else [_sg_obs(G)]
     raise AssertionError(k)
+
+
+# backend objects the caller HOLDS across steps of a history (case["held"]): created at first use, then asked again after the
+# network was edited in place (round 5, seeded change C16-w4-1: a mutator that forgets to count the edit leaves the cached view stale)
+_HELD = None
+
+
+def _backend(H, inc_rule, int_, st):
+    from synkit.CRN.Hypergraph.backend import _CRNGraphBackend
+    if _HELD is None:
+        return _CRNGraphBackend(H, include_rule=inc_rule, integer_ids=int_, include_stoich=st)
+    key = (id(H), inc_rule, int_, st)
+    if key not in _HELD:
+        _HELD[key] = _CRNGraphBackend(H, include_rule=inc_rule, integer_ids=int_, include_stoich=st)
+    return _HELD[key]
 
 DROP_KEYS = ["ksp", "krx", "lsp", "lrx", "st", "ro", "mol", "mk"]
 
@@ -621,6 +636,8 @@ def _run_views(H, views, hist):
 
 
 def impl(case):
+    global _HELD
+    _HELD = {} if case.get("held") else None
     net = case.get("net", {})
     hist = bool(case.get("hist"))
     if "ugraphs" in case:
@@ -862,6 +879,26 @@ def _oracle_view(H, vi, v, edges, mol, occ, ret):
             if not in_domain:
                 f["key"] = KEY_LABEL_DOMAIN
             fails.append(f)
+    elif k == "backend":
+        # a view handed out by a (possibly held) backend is the export of the network AS IT IS NOW; and a species-graph view of a
+        # two-sided network, imported back, gives the current ids and coefficients
+        _, inc_rule, int_, st = v
+        G = _backend(H, inc_rule, int_, st).G
+        F = cv.hypergraph_to_bipartite(H, integer_ids=int_, include_stoich=st, species_prefix=None, reaction_prefix=None) if inc_rule \
+            else cv.hypergraph_to_species_graph(H)
+        same = (dict(G.nodes(data=True)) == dict(F.nodes(data=True))
+                and {(a, b): d for a, b, d in G.edges(data=True)} == {(a, b): d for a, b, d in F.edges(data=True)})
+        if not same:
+            fails.append(dict(clause="view-current", detail="view %d: the graph a backend hands out (include_rule=%r, integer_ids=%r, include_stoich=%r) is not the "
+                                                            "export of the network as it is now: arcs %r, expected %r"
+                                                            % (vi, inc_rule, int_, st, sorted(map(str, G.edges())), sorted(map(str, F.edges())))))
+        elif not inc_rule and all(l and r for _, l, r in edges.values()):
+            import copy as _cp
+            H2 = cv.species_graph_to_hypergraph(_cp.deepcopy(G))
+            a = {e: (l, r) for e, (_, l, r) in edges.items()}
+            b = {e: (l, r) for e, (_, l, r) in _edges_of(H2).items()}
+            if a != b:
+                fails.append(dict(clause="species-graph-roundtrip", detail="view %d (backend): %r came back as %r" % (vi, a, b)))
     elif k == "sg":
         if not all(l and r for _, l, r in edges.values()):
             return fails
@@ -900,6 +937,8 @@ def _oracle_batch(net, edits, views, H, hist, tag):
 
 
 def oracle(case):
+    global _HELD
+    _HELD = {} if case.get("held") else None
     if "net" not in case:
         return []
     net = case["net"]
@@ -1310,7 +1349,25 @@ def _gen_cases(tier, rng):
                 eds.append(["rm_sp", rng.choice(sp + ["nope"]), rng.random() < 0.7])
             else:
                 eds.append(["mol", rng.choice(sp), rng.choice(["CC", ["i", 0], rng.choice(DEGENERATE_MOLS)])])
-        cases.append(dict(kind="edit-in-place", net=net, views=_std_views(rng), edits=eds, views2=_std_views(rng), hist=rng.random() < 0.5))
+        if t % 2 == 0:
+            # the caller HOLDS backend objects across the edits (cached graph views): asked before and after
+            bk = [["backend", a, b, c] for a in (True, False) for b in (True, False) for c in (True, False) if rng.random() < 0.6] or [["backend", False, False, True]]
+            cases.append(dict(kind="edit-held-view", net=net, views=bk + _std_views(rng)[:1], edits=eds, views2=bk + bk[:2], held=True))
+        else:
+            cases.append(dict(kind="edit-in-place", net=net, views=_std_views(rng), edits=eds, views2=_std_views(rng), hist=rng.random() < 0.5))
+    # ---- a held backend and ONE in-place edit of each kind (every mutator must count itself: a view cached before it is stale after it);
+    #      remove_species with prune_orphans=False on a species that shares its reactions (no reaction dies, nothing else is called)
+    for t in range(18 if quick else 90):
+        net = _rand_net(rng, nsp=rng.randint(2, 5), nrx=rng.randint(1, 5))
+        shared = sorted({q[0] for _, _, l, r in net["rxns"] for q in l + r
+                         if q[1] > 0 and len({z[0] for z in l + r if z[1] > 0}) > 1}) or ["A"]
+        sp = sorted({q[0] for _, _, l, r in net["rxns"] for q in l + r}) or ["A"]
+        one = [["rm_sp", rng.choice(shared), False], ["rm_sp", rng.choice(shared), False], ["rm_sp", rng.choice(sp), True],
+               ["rm_rxn", rng.choice(["r_1", "R1_1", "e0", "x"])], ["add", None, "r", [[rng.choice(sp), 2]], [["Nw", 1]]],
+               ["mol", rng.choice(sp), "CC"]][t % 6]
+        bk = [["backend", a, b, c] for a in (True, False) for b in (True, False) for c in (True, False)]
+        rng.shuffle(bk)
+        cases.append(dict(kind="edit-held-view", net=net, views=bk[:5], edits=[one], views2=bk[:5] + bk[:2], held=True))
     # ---- node markers and import options: every marker pair (default, swapped, booleans, equal, strings, mixed) x id mode in
     #      export -> import round trips (the importer classifies by `kind`; the marker is an opaque attribute it must ignore),
     #      and non-default species_prefix / reaction_prefix / default_rule on the import side (irrelevant when `kind` is present)
